@@ -126,7 +126,7 @@ func TestCheck(t *testing.T) {
 		checkC10(t, env, rep)
 	case "C11":
 		rep.Assumptions = []string{"freshness is judged by version number, as the property says", "sequential part: polls are explicit Refresh calls on a store with the polling task disabled; the ticker cadence and concurrent refreshes are explored by the scheduler sections"}
-		all := append(pollScenarios(), lookupScenarios()...)
+		all := append(append(pollScenarios(), lookupScenarios()...), cadenceScenarios()...)
 		if hx.ReplaySched(t, env, rep, mk(map[string]bool{"C11": true}, all...)) {
 			break
 		}
@@ -134,6 +134,7 @@ func TestCheck(t *testing.T) {
 			runSeq(env, rep, "C11", 4, 6, false)
 		}
 		runSched(t, env, rep, map[string]bool{"C11": true}, "sched-polls-and-refreshes", pollScenarios(), 2, 3)
+		runSched(t, env, rep, map[string]bool{"C11": true}, "sched-ticker-cadence-virtual-time", cadenceScenarios(), 2, 3)
 	case "C12":
 		rep.Assumptions = []string{"server-side changes in the concurrent scenarios only move forward, so 'follows the order in which polls installed them' is judged as non-decreasing version numbers per reader", "absence of data races is not decided by this check (a cooperative scheduler hides them); see DESIGN.md §2.7"}
 		all := append(pollScenarios(), lookupScenarios()...)
@@ -144,6 +145,8 @@ func TestCheck(t *testing.T) {
 			runSeq(env, rep, "C12", 4, 6, false)
 		}
 		runSched(t, env, rep, map[string]bool{"C12": true}, "sched-readers-vs-polls-lookups-expiry-close", all, 2, 3)
+	case "C15":
+		checkC15(t, env, rep)
 	case "C16":
 		rep.Assumptions = []string{"virtual time: the five-minute safety limit and the callers' deadlines are judged on the bubble's clock; horizon 16 (21) virtual minutes", "service answers per request are explorer choices among the outcomes listed per scenario (answer / fail / hang until the request's context ends)"}
 		all := append(lookupTimingScenarios(), lookupScenarios()...)
@@ -156,9 +159,7 @@ func TestCheck(t *testing.T) {
 		}
 		runSched(t, env, rep, map[string]bool{"C16": true}, "sched-lookups-deadlines-cancellations", all, 2, 3)
 	case "C13":
-		if env.Shard == 0 {
-			runSeq(env, rep, "C13", 4, 5, true)
-		}
+		checkC13(t, env, rep)
 	default:
 		t.Fatalf("unknown property %s", prop)
 	}
